@@ -109,6 +109,7 @@ Proof.
     pose proof (Hr _ (inv_start ko (tickclk s) (inv_tickclk ko s Hs) Ec)) as H1.
     destruct (eval_chunk ko r _) as [s1 e1]. cbn in H1.
     specialize (Hd s1 H1). destruct (eval_chunk ko d s1) as [s2 e2]. exact Hd.
+  - (* FWhile *) intros k b Hb s Hs _. cbn [eval_form]. now apply each_loop_inv.
 Qed.
 
 Lemma inv_init_es ko : Inv ko init_es.
@@ -234,6 +235,8 @@ Proof.
   - intros k b Hb Hd s s' i _ H. cbn in Hd. cbn [eval_form] in H.
     eapply each_loop_fail; [|exact H]. intros; eapply (Hb Hd); eassumption.
   - intros d _ r _ Hd. discriminate.
+  - intros k b Hb Hd s s' i _ H. cbn in Hd. cbn [eval_form] in H.
+    eapply each_loop_fail; [|exact H]. intros; eapply (Hb Hd); eassumption.
 Qed.
 
 Theorem interrupted_exception_sync_partial c s s' e :
@@ -253,3 +256,136 @@ Definition w_defer : chunk := CCons (FDefer (CCons FCancel CNil) (CCons (FFail 7
 Lemma interrupted_exception_refuted :
   exists c s' i, run_prog None c = (s', Some (XFail i)) /\ cz s' = true.
 Proof. exists w_defer. eexists. exists 7%N. vm_compute. split; reflexivity. Qed.
+
+(* ------------------------------------------------------------------ *)
+(* where the cancellation points are: every chunk evaluation -- also of an EMPTY
+   chunk -- passes a context check, so every iteration of every loop does *)
+
+Definition loopf (ko : option nat) (b : chunk) :=
+  fix loop (k : nat) (s : es) : es * option exn :=
+    match k with
+    | 0 => (s, None)
+    | S k' =>
+        let '(s1, e) := eval_chunk ko b s in
+        match e with
+        | Some x => (s1, Some x)
+        | None => loop k' s1
+        end
+    end.
+
+Lemma eval_while ko k b s : eval_form ko (FWhile k b) s = loopf ko b k s.
+Proof. reflexivity. Qed.
+Lemma eval_each ko k b s : eval_form ko (FEach k b) s = loopf ko b k s.
+Proof. reflexivity. Qed.
+
+Lemma cancelled_tick ko s : is_cancelled ko s = true -> is_cancelled ko (tickclk s) = true.
+Proof.
+  unfold is_cancelled. cbn. intros H. apply orb_true_iff in H as [H|H]; [now rewrite H|].
+  apply orb_true_iff. right. destruct ko as [t|]; [|discriminate].
+  apply Nat.leb_le in H. apply Nat.leb_le. lia.
+Qed.
+
+(* a chunk started with the context cancelled stops at its first check *)
+Lemma chunk_cancelled ko c s :
+  is_cancelled ko s = true -> eval_chunk ko c s = (tickclk s, Some XInt).
+Proof.
+  intros H. apply cancelled_tick in H. destruct c; cbn [eval_chunk]; now rewrite H.
+Qed.
+
+Lemma loop_clock ko b :
+  (forall s s' e, eval_chunk ko b s = (s', e) -> clk s < clk s') ->
+  forall k s s' e, loopf ko b k s = (s', e) ->
+    clk s <= clk s'
+    /\ (e = None -> clk s + k <= clk s')
+    /\ (e = None -> 0 < k -> is_cancelled ko s' = false).
+Proof.
+  intros Hb. induction k as [|k IH]; intros s s' e H; cbn [loopf] in H.
+  - inversion H; subst. repeat split; intros; lia.
+  - destruct (eval_chunk ko b s) as [s1 [x|]] eqn:Eb.
+    + inversion H; subst. apply Hb in Eb. repeat split; intros; try discriminate; lia.
+    + pose proof (Hb _ _ _ Eb) as Hlt. destruct (IH _ _ _ H) as (H1 & H2 & H3).
+      repeat split.
+      * lia.
+      * intros He. specialize (H2 He). lia.
+      * intros He _. destruct k as [|k'].
+        -- cbn in H. inversion H; subst. eapply chunk_none_not_cancelled; exact Eb.
+        -- apply H3; [exact He|lia].
+Qed.
+
+Definition M_chunk (c : chunk) : Prop :=
+  forall ko s s' e, eval_chunk ko c s = (s', e) -> clk s < clk s'.
+Definition M_form (f : form) : Prop :=
+  forall ko s s' e, eval_form ko f s = (s', e) -> clk s <= clk s'.
+
+Lemma clock_advances : (forall c, M_chunk c) /\ (forall f, M_form f).
+Proof.
+  apply chunk_form_mutind; unfold M_chunk, M_form.
+  - intros ko s s' e H. cbn in H. destruct (is_cancelled ko (tickclk s)); inversion H; subst; cbn; lia.
+  - intros f Hf r Hr ko s s' e H. cbn [eval_chunk] in H.
+    destruct (is_cancelled ko (tickclk s)); [inversion H; subst; cbn; lia|].
+    destruct (eval_form ko f _) as [s2 [x|]] eqn:Ef; apply Hf in Ef; cbn in Ef.
+    + inversion H; subst. lia.
+    + apply Hr in H. lia.
+  - intros id ko s s' e H. inversion H; subst. cbn. lia.
+  - intros ko s s' e H. inversion H; subst. cbn. lia.
+  - intros id ko s s' e H. inversion H; subst. lia.
+  - intros b Hb ko s s' e H. cbn in H. apply Hb in H. lia.
+  - intros b Hb hc c Hc hf f Hf ko s s' e H. cbn [eval_form] in H.
+    destruct (eval_chunk ko b s) as [s1 e1] eqn:Eb. apply Hb in Eb.
+    assert (H2 : forall s2 e2, (match e1 with
+                              | Some _ => if hc then eval_chunk ko c s1 else (s1, e1)
+                              | None => (s1, e1) end) = (s2, e2) -> clk s1 <= clk s2).
+    { intros s2 e2 E2. destruct e1 as [x|]; [destruct hc|]; try (inversion E2; subst; lia).
+      apply Hc in E2. lia. }
+    destruct (match e1 with Some _ => if hc then eval_chunk ko c s1 else (s1, e1) | None => (s1, e1) end)
+      as [s2 e2]. specialize (H2 s2 e2 eq_refl).
+    destruct hf.
+    + destruct (eval_chunk ko f s2) as [s3 e3] eqn:Ef. apply Hf in Ef. inversion H; subst. lia.
+    + inversion H; subst. lia.
+  - intros k b Hb ko s s' e H. rewrite eval_each in H.
+    now destruct (loop_clock ko b (Hb ko) k s s' e H).
+  - intros d Hd r Hr ko s s' e H. cbn [eval_form] in H.
+    destruct (is_cancelled ko (tickclk s)); [inversion H; subst; cbn; lia|].
+    destruct (eval_chunk ko r _) as [s1 e1] eqn:Er. apply Hr in Er. cbn in Er.
+    destruct (eval_chunk ko d s1) as [s2 e2] eqn:Ed. apply Hd in Ed.
+    inversion H; subst. lia.
+  - intros k b Hb ko s s' e H. rewrite eval_while in H.
+    now destruct (loop_clock ko b (Hb ko) k s s' e H).
+Qed.
+
+(* every chunk, also an empty one, passes at least one context check *)
+Theorem chunk_passes_a_check c ko s s' e :
+  eval_chunk ko c s = (s', e) -> clk s < clk s'.
+Proof. apply (proj1 clock_advances). Qed.
+
+(* a loop that completes k iterations passed at least k checks -- whatever its
+   body is, in particular the empty chunk *)
+Theorem every_loop_iteration_passes_a_check ko k b s s' :
+  (eval_form ko (FWhile k b) s = (s', None) -> clk s + k <= clk s')
+  /\ (eval_form ko (FEach k b) s = (s', None) -> clk s + k <= clk s').
+Proof.
+  split; intros H; [rewrite eval_while in H|rewrite eval_each in H];
+  destruct (loop_clock ko b (fun s s' e => chunk_passes_a_check b ko s s' e) k s s' None H) as (_ & H2 & _);
+  now apply H2.
+Qed.
+
+(* once the context is cancelled a loop runs no further iteration: it ends at
+   its next check with the interrupt *)
+Theorem cancelled_loop_stops ko k b s :
+  is_cancelled ko s = true ->
+  eval_form ko (FWhile (S k) b) s = (tickclk s, Some XInt).
+Proof. intros H. rewrite eval_while. cbn [loopf]. now rewrite (chunk_cancelled ko b s H). Qed.
+
+(* liveness of the interrupt: a loop with at least as many iterations left as
+   checks remain before the interrupt does not complete -- so a loop that would
+   run forever ([k] arbitrarily large) is always interrupted, empty body or not *)
+Theorem long_loop_is_interrupted t k b s s' e :
+  0 < k -> t <= clk s + k ->
+  eval_form (Some t) (FWhile k b) s = (s', e) -> e <> None.
+Proof.
+  intros Hk Ht H He. subst e. rewrite eval_while in H.
+  destruct (loop_clock (Some t) b (fun s s' e => chunk_passes_a_check b (Some t) s s' e) k s s' None H)
+    as (_ & H2 & H3).
+  specialize (H2 eq_refl). specialize (H3 eq_refl Hk).
+  unfold is_cancelled in H3. apply orb_false_iff in H3 as (_ & H3). apply Nat.leb_gt in H3. lia.
+Qed.
